@@ -1037,7 +1037,10 @@ class Check(PropertyCheck):
             'x fmt .0f .. .12f x radunit deg/arcmin/arcsec/rad (image: deg/pix) x sizes in radunit or another angular unit '
             'x angle deg/rad as Angle/Quantity x metadata (include absent/True/False/0/1, label incl. empty, type, frame, veltype, '
             'restfreq, range as str/Quantity, corr, color, linewidth, linestyle, symsize, symthick, font, fontsize, fontstyle, '
-            'usetex, labelpos, labelcolor, labeloff, symbol, keys outside the CRTF vocabulary) in shuffled order; dyadic and '
+            'usetex, labelpos, labelcolor, labeloff, symbol, keys outside the CRTF vocabulary) in shuffled order; text strings and '
+            'label / color / font values also with quote characters at the ends or inside, only quotes, empty, blanks at the ends, '
+            '#, and (text) commas and ]; strings with comma / bracket / = in a key=value item or [ / = in a text region go to an '
+            'oracle-only stream (no model); sky coordinates with their own equinox / obstime; dyadic and '
             'few-decimal numbers for exact rounding ties; a malformed stream (pixel/sky mismatch, unknown coordsys, classes '
             'without template, arcsec with image, sizes below the precision). read: files of 1..6 region lines from the grammar '
             '(every keyword incl. box/centerbox/rotbox, notations deg / bare / rad / pix / 12h30m15s / -12d30m15s / 12:30:15 / '
@@ -1067,7 +1070,10 @@ class Check(PropertyCheck):
         'metadata clauses of crtf_roundtrip are theorems for include, type, label, text and the scalar keys; for the list keys '
         '(corr, range, labeloff) preservation is checked by the correspondence and the oracle, not proved',
         'frame transformation of coordinates, unit conversion and Quantity/Angle parsing are astropy\'s (parameters)',
-        'after an exception in the middle of a list the partial mutation of earlier regions (F6) is not modelled']
+        'after an exception in the middle of a list the partial mutation of earlier regions (F6) is not modelled',
+        'strings whose effect on the reader\'s regular expressions spills over the line (comma, bracket, "=" in a label or other '
+        'key=value string; "[" or "=" in the string of a text region) are not modelled: those cases run on the real code against '
+        'the oracle only (known findings F36 / F37); quote characters and blanks at the ends ARE modelled (MTok.lexed)']
 
     # ---------------------------------------------------------------- generation
     def generate(self, rng, tier):
